@@ -411,10 +411,10 @@ class _RangeWrapper:
         return chunk
 
     def __next__(self) -> bytes:
-        chunk = self._next()
-        if chunk:
-            return chunk
-        self.end_reached = True
+        while not self.end_reached:
+            chunk = self._next()
+            if chunk:
+                return chunk
         raise StopIteration()
 
     def close(self) -> None:
